@@ -13,8 +13,9 @@ Bad(c) == PrintT(<<"BADREC", ri, c>>)
 Ok(cond, c) == IF cond THEN TRUE ELSE Bad(c)
 RecOK == ri > 0 =>
     LET r == Recs[ri] IN
-    /\ Ok(r.raised = 0, "masked.both_runs_complete")
-    /\ Ok(r.raised = 1 \/ r.ncols_a = r.ncols_b, "masked.same_number_of_components")
-    /\ Ok(r.raised = 1 \/ \A k \in 1..Len(r.rel) : IF r.need = "bit" THEN r.rel[k] = "bit_equal" ELSE r.rel[k] \in {"bit_equal", "close"},
+    \* raised: 0 both runs completed, 1 both raised the same error (e.g. no convergence: legitimate, and equivariant), 2 they differ
+    /\ Ok(r.raised \in {0, 1}, "masked.both_runs_complete_or_fail_alike")
+    /\ Ok(r.raised # 0 \/ r.ncols_a = r.ncols_b, "masked.same_number_of_components")
+    /\ Ok(r.raised # 0 \/ \A k \in 1..Len(r.rel) : IF r.need = "bit" THEN r.rel[k] = "bit_equal" ELSE r.rel[k] \in {"bit_equal", "close"},
           "masked.components_scale_with_the_signal")
 =============================================================================
